@@ -4,6 +4,7 @@
 #include "colvarbias.h"
 #include "colvarbias_histogram.h"
 #include "colvarbias_abf.h"
+#include "colvarbias_restraint.h"
 #include "colvargrid.h"
 
 template <typename G> static void dump_grid(Ctx &c, G *g, char const *tag)
@@ -28,6 +29,32 @@ bool ops_bias(Ctx &c, Toks const &t)
     o.clear();
     for (size_t i = 0; i < h->grid->data.size(); i++) o.push_back(ftok(h->grid->data[i]));
     c.out("data", join(o));
+    return true;
+  }
+  if (t[0] == "r.dump") {
+    colvarbias *b = cvm::bias_by_name(t[1]);
+    colvarbias_restraint_k *rk = dynamic_cast<colvarbias_restraint_k *>(b);
+    colvarbias_restraint_centers *rc = dynamic_cast<colvarbias_restraint_centers *>(b);
+    colvarbias_restraint_moving *rm = dynamic_cast<colvarbias_restraint_moving *>(b);
+    if (!rk) { c.out("k", "snone"); return true; }
+    std::vector<std::string> o;
+    if (rc) for (size_t i = 0; i < rc->colvar_centers.size(); i++) o.push_back(ftok(rc->colvar_centers[i].real_value));
+    c.out("centers", join(o));
+    c.out("k", ftok(rk->force_k));
+    c.out("stage", itok(rm ? rm->stage : 0));
+    c.out("work", ftok(rm ? rm->acc_work : 0.0));
+    // staged-TI lines of this bias, parsed from the log: "Restraint <name> Lambda= <l> dA/dLambda= <v>"
+    o.clear(); long n = 0;
+    for (auto const &l : c.proxy->ti_log) {
+      if (l.find("Restraint " + t[1] + " Lambda=") == std::string::npos) continue;
+      double lam = 0, v = 0;
+      size_t p1 = l.find("Lambda= "), p2 = l.find("dA/dLambda= ");
+      if (p1 == std::string::npos || p2 == std::string::npos) continue;
+      lam = std::strtod(l.c_str() + p1 + 8, nullptr); v = std::strtod(l.c_str() + p2 + 12, nullptr);
+      o.push_back(ftok(lam)); o.push_back(ftok(v)); n++;
+    }
+    c.out("nti", itok(n));
+    c.out("ti", join(o));
     return true;
   }
   if (t[0] == "a.dump") {
